@@ -8,7 +8,7 @@
    the call is parked at a gate, blocked inside core/mr, or gone.  [drive] does the
    same on the model: one user step, then all internal steps to quiescence. *)
 From Coq Require Import List ZArith Bool Arith.
-From GZ Require Export Lib.CheckLib C10.Model.
+From GZ Require Export Lib.CheckLib C10.Model C10.AtomicErr.
 From GZgen Require Export C10Consts.
 Import ListNotations.
 Local Open Scope nat_scope.
@@ -16,7 +16,8 @@ Local Open Scope nat_scope.
 Inductive event := EvGen | EvMap (x : Z) | EvRed | EvCtx
   | EvCaller.   (* release the caller, held before its final select by a context whose Done() parks it *)
 
-Inductive api := AMapReduce | AVoid | AChan | AForEach | AFinish | AFinishVoid.
+Inductive api := AMapReduce | AVoid | AChan | AForEach | AFinish | AFinishVoid
+  | AAtomic.   (* not a call of core/mr: one errorx.AtomicError (the retErr of a call) driven directly, [caops] *)
 
 Record case := mkCase
   { capi : api;
@@ -37,7 +38,8 @@ Record case := mkCase
     omapped : list Z;             (* items the mapper was called with (sorted) *)
     oreduced : list Z;            (* values the reducer function received (sorted) *)
     opeak : nat;
-    ocensus : nat }.              (* goroutines with core/mr frames alive at the end *)
+    ocensus : nat;                (* goroutines with core/mr frames alive at the end *)
+    caops : list aop }.           (* AAtomic: the Set / Load history with what was observed *)
 
 Definition lookup_script (l : list (Z * list uact)) (x : Z) : list uact :=
   match find (fun kv => Z.eqb (fst kv) x) l with
@@ -246,7 +248,10 @@ Definition trivial_case (c : case) : bool :=
 (* the model reproduces what the implementation did (runs in which the
    implementation had a pseudo-random choice between ready select cases / competing
    receivers are only compared on what does not depend on the choice) *)
+Definition is_atomic (a : api) : bool := match a with AAtomic => true | _ => false end.
+
 Definition agrees (c : case) : bool :=
+  if is_atomic (capi c) then ae_agrees None (caops c) else
   if trivial_case c then
     opt_eqb outcome_eqb (oresult c) (Some OUnit) && (ocensus c =? 0)
   else
@@ -330,6 +335,7 @@ Definition last_is_recvall (l : list uact) : bool :=
   match rev l with URecvAll :: _ => true | _ => false end.
 
 Definition prop_ok (c : case) : bool :=
+  if is_atomic (capi c) then ae_prop None (caops c) else
   let a := capi c in
   let fe := is_foreach a in
   let w := eff_workers c in
